@@ -203,6 +203,11 @@ fn corr_ev<T: F>(case: &Value, out: &mut Vec<Value>) {
     o.insert("ty".into(), json!(T::NAME));
     let (co, cv) = mat(guarded(|| m.cov(T::f(d2 as f64 / 2.0))));
     o.insert("cov_out".into(), json!(co)); o.insert("cov".into(), cv);
+    // the correlation may be logged at its own resolution (pqe)
+    let pqe = case.get("pqe").and_then(|x| x.as_i64()).unwrap_or(qe);
+    let mat = |r: Result<Result<Array2<T>, ndarray_stats::errors::EmptyInput>, ()>| -> (String, Value) {
+        res_json(r, |v| json!(v.outer_iter().map(|row| row.iter().map(|&x| quant(x.g(), pqe)).collect::<Vec<_>>()).collect::<Vec<_>>()))
+    };
     let (po, pv) = mat(guarded(|| m.pearson_correlation()));
     o.insert("pear_out".into(), json!(po)); o.insert("pear".into(), pv);
     // metamorphic partners: positive affine rescaling of row k by 2^sexp and a grid shift; negation of row k
